@@ -196,7 +196,7 @@ def run(ctx: C.Ctx):
             else:
                 costs, ck = gen.gen_costs(rng, n, B, kind=ck)
         case = OptCase(B, "ccqr", costs=costs, meta={"mk": mk, "ck": ck})
-        if idx % 6 == 1 and float(np.max(np.abs(B), initial=0)) < 2 ** 20 and np.array_equal(B.astype(np.float32).astype(float), B):
+        if idx % 6 == 1 and float(np.max(np.abs(B), initial=0)) < 2 ** 20 and "*2^" not in mk and np.array_equal(B.astype(np.float32).astype(float), B):
             # a single-precision basis matrix with costs far larger than the norms: `norm − cost` is still a float64 quantity
             case.meta["dtype"] = "float32"
             if costs is not None and idx % 12 == 1:
